@@ -87,6 +87,11 @@ def plan(tier):
                               data='canary seed of every frame (32-bit): symbolic',
                               bounds='<= 3 simultaneously live frames, <= 6 create/complete operations',
                               outside='two threads on one reusable_storage_mtsafe (E2 half)'))
+    units.append(dict(engine='e1', name='h_stack2', tu='C19.cpp', defines=('C19_PART=3',), entry='h_stack2', unwind=14,
+                      vectors=[[w, a, b] for w in (0, 1, 2) for a in (0, 1) for b in (0, 1)], concrete=[([0, 0, 0], [5, 6]), ([1, 1, 1], [7, 8]), ([2, 0, 1], [1, 2])],
+                      cbmc_extra=('--max-field-sensitivity-array-size', '300'),
+                      space='stack_storage: two activations construct their storages and obtain their memory (sized by the shared state) before either coroutine is created; shared state cold / warmed by a small / by a large frame x frame sizes',
+                      data='seeds symbolic', bounds='2 overlapping activations', outside='3 or more overlapping activations; real alloca (the harness supplies static buffers and checks the size contract)'))
     # two threads on one thread-safe reusable storage (E2, SC interleavings): exclusivity of the block
     sto = [dict(name='mtsafe_16_16', nthreads=2, defines=['SZ1=16', 'SZ2=16']), dict(name='mtsafe_16_32', nthreads=2, defines=['SZ1=16', 'SZ2=32']),
            dict(name='mtsafe_2rounds', nthreads=2, defines=['SZ1=16', 'SZ2=16', 'ROUNDS=2'])]
